@@ -1306,6 +1306,9 @@ func (e *Enc) iterComp() *Comp { return e.W.comp("IT!pos", "(Array Int Int)", "i
 // provided each such update targets a different map object: that is turned into a
 // "range-stable" obligation at each update (see protectRange).
 func (e *Enc) mapRangeExact(fr *frame, rng *ssa.Range, mt *types.Map) bool {
+	if e.opt("weakrange") {
+		return false // contract asks for the coarse "some present key" model (e.g. the loop updates the ranged map itself)
+	}
 	if e.dry {
 		return true
 	}
